@@ -2,7 +2,7 @@
    Directives: ExtrOcamlBasic only (bool, option, list, prod, unit, sumbool -> OCaml);
    N / Z / positive / nat stay the extracted inductive datatypes. *)
 From Coq Require Extraction ExtrOcamlBasic.
-From TV Require C14Run C19Run C16Run C17Run C15Run C20Run C12Run C18Run PoolRun PoolChk SvcRun IpamRun PeRun.
+From TV Require C14Run C19Run C16Run C17Run C15Run C20Run C12Run C18Run PoolRun PoolChk SvcRun IpamRun PeRun DpRun.
 Extraction Language OCaml.
 Extraction "model.ml" C14Run.run_c14 C14Run.chk_c14
   C19Run.run_c19 C19Run.chk_c19
@@ -15,4 +15,5 @@ Extraction "model.ml" C14Run.run_c14 C14Run.chk_c14
   PoolRun.run_pool PoolChk.chk_c01 PoolChk.chk_c06 PoolChk.chk_c07 PoolChk.why_pool
   SvcRun.run_svc SvcRun.chk_c04 SvcRun.chk_c05 SvcRun.chk_c09 SvcRun.why_svc
   IpamRun.run_ipam IpamRun.chk_c02 IpamRun.chk_c03 IpamRun.chk_c08 IpamRun.why_ipam
-  PeRun.run_pe PeRun.chk_c10 PeRun.chk_c11 PeRun.why_pe.
+  PeRun.run_pe PeRun.chk_c10 PeRun.chk_c11 PeRun.why_pe
+  DpRun.run_dp DpRun.chk_c13 DpRun.why_dp.
